@@ -71,6 +71,9 @@ OBLIGATIONS = [
     "SkVerif.C15.long_rows_keys_nodup",
     "SkVerif.C15.path5_preserves_panel",
     "SkVerif.C15.path5_independence",
+    "SkVerif.C15.nested_mi_keeps_time_order",
+    "SkVerif.C15.nested_mi_arr3_any_time_labels",
+    "SkVerif.C15.mi_to_nested_row_order_irrelevant",
 ]
 TRUSTED = [
     "hand-written model SkVerif/Model/Panel.lean of data_processing.py / check_X: pandas and numpy primitives (np.stack, reshape, swapaxes, "
@@ -88,9 +91,18 @@ ASSUMPTIONS = [
     "dtypes are not part of the tokens: promotion to a common dtype is invisible, a changed number is a values failure",
     "column names are python str or int, pairwise distinct, not mixed within one frame (duplicate / reserved names only in the malformed stream)",
     "frames that would contain NaN after pd.concat / pivot (unequal series lengths inside from_nested_to_multi_index, incomplete long tables) are outside the model (E:unmodelled, never generated)",
+    "time labels (index of the Series cells of a start nested frame, time level of a start multi-index frame, time column of a start long table) are pairwise distinct ints in ANY order "
+    "(countdown, shuffled, gapped / negative), the same for every series of the panel; the panel's time order is the order of the readings in the cells / of an instance's rows, not the order of the labels. "
+    "Like instances and variables, a long table is keyed by time label: from_long_to_nested returns the readings in ascending label order (what pivot does; observation, not reported as a defect). "
+    "The model's nested frame has no time index: cases in which a converter reads the labels of Series cells anywhere but in the first hop (after multi-index -> nested, or pandas 2-D labels) are judged by the oracle alone (to_line = None)",
+    "a multi-index frame denotes its panel by LABEL: instance order = order of first appearance, every instance's series = its rows in order of appearance; start frames whose rows are not grouped by instance "
+    "(time-major, woven) keep every instance's rows in time order and the first appearances in the panel's instance order; the index levels may come in the order (time, instance) (levels are addressed by name; same model line)",
     "the name attribute of the Series in the cells is irrelevant to every converter (since 89ac2e4); the stream includes cells named by column, by instance and in permuted order, sent to the same model line as unnamed cells",
 ]
-RULE = ("order independence: a fixed perturbing call sequence runs before the first case; conversion cases are evaluated in the current module state and in a fresh copy of the module "
+RULE = ("row order and time labels: about 1/2 of the multi-index start frames have rows NOT grouped by instance (time-major / randomly woven, 1/4 with the levels in the order (time, instance)); about 1/2 of the nested (Series cells) / "
+        "multi-index / long start containers with t >= 2 carry time labels that are not 0..t-1 ascending (countdown, shuffled, gapped); plus a dedicated stream: every path of length <= 2 (thorough: <= 3) from such containers; "
+        "clauses <hop>:time-order (rows / readings of a series in another time order), <hop>:values; "
+        "order independence: a fixed perturbing call sequence runs before the first case; conversion cases are evaluated in the current module state and in a fresh copy of the module "
         "(always when the module's state fingerprint deviates from a fresh copy's, every 4th case otherwise); call histories of 3-6 calls with changing optional arguments, each call compared "
         "with the same call in a fresh state; cell dtypes: start containers are float64 or (about 2/3 of the cases) carry int64 / int32 / float32 cells, columns or instances (first-only, last-only, per-column mixes, uniform); "
         "values are compared as numbers; conversion after a selection: every converter and every path of length <= 2 on sub-panels OBTAINED from a bigger container by .loc list / boolean mask / .iloc / reversal "
@@ -107,7 +119,10 @@ LEVEL_NOTE = ("Proved for the model, for all shapes n,c>=1 (t>=1 where a multi-i
               "path independence for paths of ANY length over all five containers (path5_preserves_panel / path5_independence), the name rule (kept while every container "
               "carries names, var_i after a 3-D array), the long table's sort-by-identifier with every identifier keeping its name and data (nested_long_nested, full strength "
               "since fix e35dbc7), row-order independence of from_long_to_nested, Series and array cells from a 2-D table (since fix 9d494a8), the nestedness predicates, check_X coercions. "
-              "Recorded findings kept in the model and proved as such: reserved names (index/time_index/value) break from_nested_to_long, duplicate names drop columns in "
+              "Time labels / row order: from_nested_to_multi_index keeps the cells' reading order and keys the rows by the cells' own labels for ANY label list, and nested -> multi-index -> 3-D array is the panel for any "
+              "distinct labels (nested_mi_keeps_time_order, nested_mi_arr3_any_time_labels); from_multi_index_to_nested depends on the rows only through each instance's own rows in order and the order of first "
+              "appearance, not on how instances are interleaved (mi_to_nested_row_order_irrelevant). "
+              "Recorded findings kept in the model and proved as such: from_multi_index_to_3d_numpy reads rows by position (m3:row-order-ignored; concrete witness in Props), reserved names (index/time_index/value) break from_nested_to_long, duplicate names drop columns in "
               "from_3d_numpy_to_nested. "
               "Only observed by the correspondence (no theorem): the mixed primitive/nested branch (ffill) of from_nested_to_multi_index / from_nested_to_3d_numpy, error kinds on "
               "malformed arguments, 2-D numpy input to the 3-D converters, irrelevance of the cells' Series names (fix 89ac2e4). Not modelled: non-default "
@@ -211,6 +226,8 @@ def enc_rep(r, m=None):
         tok = "N:%s:%s" % (enc_names(r["names"]), enc_list("|", [enc_list(";", [enc_cell(c) for c in col]) for col in r["cols"]]))
         if r.get("index") is not None:
             tok += ":" + ",".join(str(lab_int(x, m)) for x in r["index"])
+        if r.get("tidx") is not None:
+            tok += ("" if r.get("index") is not None else ":none") + ":" + ",".join(str(int(x)) for x in r["tidx"])
         return tok
     if k == "M":
         return "M:%s:%s:%s:%s" % (r["inst"], r["time"], enc_names(r["names"]),
@@ -244,7 +261,34 @@ def enc_hop(h):
     raise ValueError(op)
 
 
+def model_faithful(c):
+    """The model's nested frame has no time index.  A case whose start container carries non-default time labels is sent to the
+    model when no converter that READS the labels of Series cells (to the multi-index frame / long table, pandas 2-D labels) is
+    applied to a nested frame that still carries them, except as the first hop from the start frame (modelled: the labels are the
+    5th field of the N token).  The other cases are judged by the oracle alone."""
+    if not c.get("tl"):
+        return True
+    for hops in [c["hops"]] + ([[c["direct"]]] if c.get("direct") else []):
+        kind, lab = c["start"]["k"], True
+        for hi, h in enumerate(hops):
+            op = h[0]
+            if IN[op] != kind:
+                break
+            if kind == "N" and lab and (op == "n2" and h[1] == "pd"):
+                return False
+            if kind == "N" and lab and op in ("nm", "nl") and hi > 0:
+                return False
+            if op in ("nm", "nl", "ln") or (op == "mn" and h[2] == "S"):
+                pass
+            else:
+                lab = False
+            kind = OUT[op]
+    return True
+
+
 def to_line(c):
+    if c["op"] == "path" and not model_faithful(c):
+        return None
     if c["op"] == "path":
         r = c["start"]
         m = lab_map(r)
@@ -262,8 +306,10 @@ def to_line(c):
 
 
 # ------------------------------------------------------------------ real objects
-def _mk_cell(c, sname=None, dtype="float64"):
+def _mk_cell(c, sname=None, dtype="float64", tidx=None):
     if c[0] == "S":
+        if tidx is not None and len(tidx) == len(c[1]):
+            return pd.Series(np.array(c[1], dtype=dtype), index=list(tidx), name=sname)
         return pd.Series(np.array(c[1], dtype=dtype), name=sname)
     if c[0] == "R":
         return np.array(c[1], dtype=dtype)
@@ -298,7 +344,7 @@ def build(r):
                     sname = i
                 elif mode == "perm":
                     sname = "q%d" % ((j + i) % len(r["cols"]))
-                cells.append(_mk_cell(c, sname, dt[j][i] if dt else "float64"))
+                cells.append(_mk_cell(c, sname, dt[j][i] if dt else "float64", r.get("tidx")))
             if all(c[0] == "P" for c in col):
                 data[j] = pd.Series(cells, dtype=float, index=range(n))
             else:
@@ -312,7 +358,10 @@ def build(r):
             df.index = list(r["index"])
         return df
     if k == "M":
-        idx = pd.MultiIndex.from_tuples([(i, t) for i, t, _ in r["rows"]], names=[r["inst"], r["time"]])
+        if r.get("swap"):          # the same frame with the levels in the order (time, instance): levels are addressed by name
+            idx = pd.MultiIndex.from_tuples([(t, i) for i, t, _ in r["rows"]], names=[r["time"], r["inst"]])
+        else:
+            idx = pd.MultiIndex.from_tuples([(i, t) for i, t, _ in r["rows"]], names=[r["inst"], r["time"]])
         df = pd.DataFrame(np.array([vs for _, _, vs in r["rows"]], dtype=float).reshape(len(r["rows"]), len(r["names"])), index=idx)
         if dt:
             for j, d in enumerate(dt):
@@ -337,10 +386,20 @@ def _default_range(idx, n):
         return False
 
 
-def canon(x, kind, m=None, index=None):
+def _subset(idx, tl):
+    try:
+        l = [int(v) for v in idx]
+        return len(set(l)) == len(l) and set(l) <= set(tl)
+    except Exception:
+        return False
+
+
+def canon(x, kind, m=None, index=None, tl=None):
     """canonical token of a real container, read according to the kind the converter is documented to return.
     `m`: the case's injection of instance identifiers into the integers; `index`: the row labels of the start frame
-    (a pandas 2-D table inherits them; every other frame must carry the default RangeIndex, anything else is flagged)."""
+    (a pandas 2-D table inherits them; every other frame must carry the default RangeIndex, anything else is flagged);
+    `tl`: the time labels of the case's start container (Series cells may carry these instead of 0..t-1; which values sit
+    under which label is judged through the multi-index / long containers, whose tokens carry the labels)."""
     def lab(v):
         # identifiers of the start container go through the case's injection; labels created on the way are positions
         try:
@@ -370,7 +429,7 @@ def canon(x, kind, m=None, index=None):
             for i in range(x.shape[0]):
                 v = x.iloc[i, j]
                 if isinstance(v, pd.Series):
-                    if not _default_range(v.index, len(v)):
+                    if not _default_range(v.index, len(v)) and not (tl is not None and _subset(v.index, tl)):
                         flag = "!tidx"
                     cells.append("S" + enc_vals(v.tolist()))
                 elif isinstance(v, np.ndarray):
@@ -634,17 +693,18 @@ def _run_path(c, dp):
         return "X:build:" + type(e).__name__ + ":" + str(e)[:120].replace(" ", "_")
     m = lab_map(c["start"])
     index = c["start"].get("index")
+    tl = c.get("tl")
     for h in c["hops"]:
         try:
             x = apply_hop(h, x, dp)
-            outs.append(canon(x, OUT[h[0]], m, index))
+            outs.append(canon(x, OUT[h[0]], m, index, tl))
         except Exception as e:
             outs.append(canon_err(e))
             break
     s = enc_list(" > ", outs)
     if c.get("direct"):
         try:
-            d = canon(apply_hop(c["direct"], realize(c), dp), OUT[c["direct"][0]], m, index)
+            d = canon(apply_hop(c["direct"], realize(c), dp), OUT[c["direct"][0]], m, index, tl)
         except Exception as e:
             d = canon_err(e)
         s += " || " + d
@@ -724,10 +784,12 @@ def _pv(s):
     return [] if s == "-" else [float(Fraction(x)) for x in s.split(",")]
 
 
-def denote(tok, labels=None):
+def denote(tok, labels=None, tl=None):
     """token -> (kind, names|None, vals[i][j][t] | rows, meta) read WITHOUT the model: what panel does this container hold?
     `labels`: the instance identifiers (as integers) the container must carry, in the panel's instance order
     (None = positions 0..n-1; "any" = whatever it carries, in order of appearance).
+    `tl`: the time labels the rows of a multi-index frame / long table must carry, in the panel's time order
+    (None = 0..t-1; "any" = whatever they carry, in order of appearance).
     Returns None when the container is not a well-formed container of its kind (other identifiers, time labels not 0..t-1 in
     order, ragged, flags)."""
     p = tok.split(":")
@@ -761,15 +823,24 @@ def denote(tok, labels=None):
                 if a not in seen:
                     seen.append(a)
             n = len(seen)
-            t = len({b for _, b in keys})
+            tseen = []
+            for _, b in keys:
+                if b not in tseen:
+                    tseen.append(b)
+            t = len(tseen)
             want = seen if labels == "any" else list(range(n)) if labels is None else list(labels)
-            if keys != [(i, q) for i in want for q in range(t)]:
+            tw = tseen if tl == "any" else list(range(t)) if tl is None else list(tl)
+            if keys != [(i, q) for i in want for q in tw]:
                 # same identifiers, rows of the instances in another order: reported by the caller as instance order
-                if labels != "any" and sorted(keys) == sorted((i, q) for i in want for q in range(t)) and \
-                        keys == [(i, q) for i in seen for q in range(t)]:
+                if labels != "any" and sorted(keys) == sorted((i, q) for i in want for q in tw) and \
+                        keys == [(i, q) for i in seen for q in tw]:
                     c = len(names)
                     byid = {i: [[_pv(",".join(rows[si * t + q][2:]))[j] for q in range(t)] for j in range(c)] for si, i in enumerate(seen)}
                     return ("M", names, [byid[i] for i in seen], {"inst": p[1], "time": p[2], "order": seen, "want": want})
+                # the right instances in the right order, the rows of an instance in another time order
+                if tl != "any" and len(tw) == t and sorted(keys) == sorted((i, q) for i in want for q in tw) and \
+                        [a for a, _ in keys] == [i for i in want for _ in tw]:
+                    return ("M", names, [], {"inst": p[1], "time": p[2], "torder": [b for _, b in keys[:t]], "twant": tw})
                 return None
             c = len(names)
             return ("M", names, [[[_pv(",".join(rows[i * t + q][2:]))[j] for q in range(t)] for j in range(c)] for i in range(n)],
@@ -797,6 +868,11 @@ def denote(tok, labels=None):
             if sorted(want) != ids:
                 return None
             pos = {lab_: i for i, lab_ in enumerate(want)}      # a long table is keyed by identifier: read it by identifier
+            if tl is not None and tl != "any":
+                if sorted({b for _, b, _ in d}) != sorted(tl):
+                    return None
+                tpos = {lab_: q for q, lab_ in enumerate(tl)}   # ... and by time label
+                d = {(a, tpos[b], nm): v for (a, b, nm), v in d.items()}
             d = {(pos[a], b, nm): v for (a, b, nm), v in d.items()}
             return ("L", names, d, {"inst": p[1], "time": p[2], "dim": p[3], "n": n, "t": t})
     except Exception:
@@ -825,6 +901,9 @@ def _walk(c, toks, fails):
     m = lab_map(start)
     ids = panel.get("ids")
     labels = [lab_int(x, m) for x in ids] if (ids is not None and kind in ("N", "M", "L")) else None
+    # time labels the current container carries (None: the default 0..t-1)
+    ptl = panel.get("tl")
+    tl = list(ptl) if (ptl is not None and (kind in ("M", "L") or (kind == "N" and start.get("tidx") is not None))) else None
     if kind == "M":
         meta = {"inst": start["inst"], "time": start["time"]}
     if kind == "L":
@@ -875,7 +954,7 @@ def _walk(c, toks, fails):
                 fails.append((site + ":valid-rejected", "hop %d %r on a valid %s container raised %s" % (hi, h, kind, tok)))
             return
         carries_ids = op in ("nm", "nl")           # containers that keep the instance identifiers of their input
-        d = denote(tok, labels if carries_ids else None)
+        d = denote(tok, labels if carries_ids else None, tl if carries_ids else None)
         if d is None:
             fails.append((site + ":malformed-output", "hop %d %r returned a container that is not a canonical %s: %s" % (hi, h, OUT[op], tok[:200])))
             return
@@ -883,6 +962,17 @@ def _walk(c, toks, fails):
         if okind == "M" and "order" in ometa:
             fails.append((site + ":instance-order", "hop %d %r: instances come out in the order %r, the panel's instance order is %r" % (hi, h, ometa["order"], ometa["want"])))
             return
+        if okind == "M" and "torder" in ometa:
+            fails.append((site + ":time-order", "hop %d %r: the rows of every instance come out in the time order %r, the cells' time order is %r" % (hi, h, ometa["torder"], ometa["twant"])))
+            return
+        tl_in = tl
+        if op == "ln" and tl is not None:
+            # a long table is keyed by time label as well: the readings come back in ascending label order
+            order_t = sorted(range(len(tl)), key=lambda q: tl[q])
+            exp = [[[col[q] for q in order_t] for col in inst] for inst in exp]
+            tl = sorted(tl)
+        elif not (op in ("nm", "nl") or (op == "mn" and h[2] == "S")):
+            tl = None                                # arrays, array cells and 2-D tables carry no time labels
         # ---- expected values after this hop
         if op == "ln" and labels is not None:
             # a long table is keyed by instance identifier, not by position: its instances come back in identifier order
@@ -903,7 +993,7 @@ def _walk(c, toks, fails):
                 fails.append((site + ":values", "hop %d %r: 2-D table rows %r, expected %r" % (hi, h, ovals[:3], want_rows[:3])))
                 return
             if onames is not None and names is not None and op == "n2":
-                wl = ["%s__%d" % (nm, q) for nm, col in zip(names, exp[0]) for q in range(len(col))]
+                wl = ["%s__%d" % (nm, tl_in[q] if tl_in is not None else q) for nm, col in zip(names, exp[0]) for q in range(len(col))]
                 if onames != wl:
                     fails.append((site + ":names-not-preserved", "hop %d %r: labels %r, expected %r" % (hi, h, onames[:6], wl[:6])))
             exp = [[row] for row in want_rows]
@@ -946,8 +1036,16 @@ def _walk(c, toks, fails):
         if ovals != exp and named:
             fails.append((op + ":named-series-cells:values", "Series cells carrying a name (%s): %s moved values between columns: got %r expected %r" % (start["snames"], op, ovals[:2], exp[:2])))
             return
+        if ovals != exp and op == "m3" and hi == 0 and start["k"] == "M" and not _grouped(start["rows"]) and ovals == _positional(start):
+            fails.append(("m3:row-order-ignored", "from_multi_index_to_3d_numpy reads the rows of the frame by POSITION (reshape): the frame's rows are not grouped by "
+                          "instance (instance level %r), result %r, the panel (and from_multi_index_to_nested + from_nested_to_3d_numpy) is %r"
+                          % ([r_[0] for r_ in start["rows"]][:8], ovals[:2], exp[:2])))
+            return
         if ovals != exp and sorted(map(repr, ovals)) == sorted(map(repr, exp)):
             fails.append((site + ":instance-order", "hop %d %r: the instances are the original ones in another order: got %r expected %r" % (hi, h, ovals[:4], exp[:4])))
+            return
+        if ovals != exp and all(len(ro) == len(re_) and all(sorted(a) == sorted(b) for a, b in zip(ro, re_)) for ro, re_ in zip(ovals, exp)):
+            fails.append((site + ":time-order", "hop %d %r: every series holds its own values in another time order: got %r expected %r" % (hi, h, ovals[:2], exp[:2])))
             return
         if ovals != exp:
             fails.append((site + ":values", "hop %d %r: values/order differ from the original panel: got %r expected %r" % (hi, h, ovals[:2], exp[:2])))
@@ -970,6 +1068,29 @@ def _walk(c, toks, fails):
         kind = okind
         meta = ometa
     return (kind, names, exp)
+
+
+def _grouped(rows):
+    """are the rows of a multi-index start frame grouped by instance (every instance one contiguous block)?"""
+    seen, last = set(), object()
+    for r in rows:
+        if r[0] != last:
+            if r[0] in seen:
+                return False
+            seen.add(r[0])
+            last = r[0]
+    return True
+
+
+def _positional(start):
+    """the rows of a multi-index start frame read by position: values.reshape(n, t, c).swapaxes(1, 2)"""
+    rows = start["rows"]
+    n = len({r[0] for r in rows})
+    t = len({r[1] for r in rows})
+    c = len(start["names"])
+    if n * t != len(rows):
+        return None
+    return [[[float(rows[i * t + q][2][j]) for q in range(t)] for j in range(c)] for i in range(n)]
 
 
 def _commutes(c, out, bigtok):
@@ -1123,9 +1244,18 @@ def oracle(c, out):
     dt = parts[1]
     if dt.startswith("E:") or dt.startswith("X:"):
         return fails        # judged by the direct case itself
-    dd = denote(dt, "any")
-    pd_ = denote(toks[-1], "any") if toks else None
-    if dd is None or pd_ is None:
+    tlc = c.get("tl")
+
+    def carried(hops):
+        """does the container at the end of `hops` still carry the time labels of the start container?"""
+        lab = True
+        for h in hops:
+            lab = lab and (h[0] in ("nm", "nl", "ln") or (h[0] == "mn" and h[2] == "S"))
+        return lab
+    # containers that carry the start container's time labels are read by label, the others by position
+    dd = denote(dt, "any", "any" if not tlc else (tlc if carried([c["direct"]]) else None))
+    pd_ = denote(toks[-1], "any", "any" if not tlc else (tlc if carried(c["hops"]) else None)) if toks else None
+    if dd is None or pd_ is None or "torder" in dd[3] or "torder" in pd_[3]:
         return fails
     via_long = any(h[0] == "ln" for h in c["hops"])
     via_2d = any(OUT[h[0]] == "T" for h in c["hops"][:-1]) and len(c["panel"]["vals"][0]) > 1   # a 2-D table has no column boundaries
@@ -1133,6 +1263,9 @@ def oracle(c, out):
     if not via_long and not via_2d and not ids_in_result:
         if dd[0] == "L" and pd_[0] == "L" and dd[1] is not None and pd_[1] is not None and sorted(map(str, dd[1])) != sorted(map(str, pd_[1])):
             pass        # names not carried on one of the ways: compared below only when carried
+        elif dd[2] != pd_[2] and c["direct"][0] == "m3" and c["start"]["k"] == "M" and not _grouped(c["start"]["rows"]) and dd[2] == _positional(c["start"]):
+            fails.append(("m3:row-order-ignored", "the direct conversion from_multi_index_to_3d_numpy reads the rows by POSITION; the frame's rows are not grouped by instance "
+                          "(instance level %r): direct %r, path %r gives %r" % ([r_[0] for r_ in c["start"]["rows"]][:8], dd[2][:2], [h[0] for h in c["hops"]], pd_[2][:2])))
         elif dd[2] != pd_[2]:
             fails.append(("path:differs-from-direct", "path %r gives other values than the direct conversion %r" % ([h[0] for h in c["hops"]], c["direct"][0])))
         carried = all(OUT[h[0]] in ("N", "M", "L") for h in c["hops"]) and c["start"]["k"] in ("N", "M", "L") and all(
@@ -1183,6 +1316,12 @@ def features(c, out):
         if sdt is not None:
             flat = [sdt] if isinstance(sdt, str) else [x for y in sdt for x in (y if isinstance(y, list) else [y])]
             f.append("dtypes=" + ("uniform-" + flat[0] if len(set(flat)) == 1 else "mixed"))
+        if c.get("tl"):
+            f.append("time-labels=" + ("descending" if c["tl"] == sorted(c["tl"], reverse=True) else "unsorted"))
+        if c["start"]["k"] == "M" and not _grouped(c["start"]["rows"]):
+            f.append("mi-rows=not-grouped-by-instance")
+        if c["start"].get("swap"):
+            f.append("mi-levels=(time,instance)")
         if c.get("via"):
             v = c["via"]
             f.append("via=" + "+".join([x for x in (("inst-" + str(v.get("how"))) if v.get("inst") is not None else None,
@@ -1309,11 +1448,59 @@ def mk_ids(rng, n, mode):
 ID_MODES = [None, None, "perm", "gap", "str", "desc"]
 
 
-def start_rep(rng, kind, vals, names, cellkind="S", levels=None, longcols=None, shuffle=False, pandas2d=False, ids=None, dt=None):
+def start_rep(rng, kind, vals, names, cellkind="S", levels=None, longcols=None, shuffle=False, pandas2d=False, ids=None, dt=None,
+              tl=None, mrow=None, swap=False):
+    """`tl`: time labels (distinct ints, any order) of the Series cells / the time level / the time column; `mrow`: order of the rows
+    of a multi-index frame ("tmajor": time-major, "weave": a random interleaving of the instances; every instance keeps its own
+    time order and the instances first appear in the panel's order); `swap`: index levels in the order (time, instance)."""
     rep = _start_rep(rng, kind, vals, names, cellkind, levels, longcols, shuffle, pandas2d, ids)
+    n, t = len(vals), len(vals[0][0])
+    if tl is not None and kind in ("M", "L"):
+        for row in rep["rows"]:
+            row[1] = tl[row[1]]
+    if tl is not None and kind == "N" and cellkind == "S":
+        rep["tidx"] = list(tl)
+    if kind == "M" and mrow is not None and n > 1 and t > 1:
+        blocks = [rep["rows"][i * t:(i + 1) * t] for i in range(n)]
+        if mrow == "tmajor":
+            rows = [blocks[i][q] for q in range(t) for i in range(n)]
+        else:
+            ptr, started, rows = [0] * n, 0, []
+            while len(rows) < n * t:
+                cand = [i for i in range(min(started + 1, n)) if ptr[i] < t]
+                i = rng.choice(cand)
+                if i == started:
+                    started += 1
+                rows.append(blocks[i][ptr[i]])
+                ptr[i] += 1
+            if _grouped(rows):
+                rows = [blocks[i][q] for q in range(t) for i in range(n)]
+        rep["rows"] = rows
+    if kind == "M" and swap:
+        rep["swap"] = True
     if dt is not None:
         rep["dt"] = dt
     return rep
+
+
+def mk_tl(rng, t, mode):
+    """time labels that are NOT 0..t-1 in ascending order"""
+    if mode is None or t < 2:
+        return None
+    if mode == "desc":
+        return list(range(t - 1, -1, -1))
+    if mode == "perm":
+        tl = list(range(t))
+        rng.shuffle(tl)
+    else:
+        tl = rng.sample(range(-5, 40), t)
+    if tl == sorted(tl):
+        tl.reverse()
+    return tl
+
+
+TL_MODES = [None, None, None, "desc", "perm", "gap"]
+MROW_MODES = [None, None, "tmajor", "weave"]
 
 
 def _start_rep(rng, kind, vals, names, cellkind="S", levels=None, longcols=None, shuffle=False, pandas2d=False, ids=None):
@@ -1421,6 +1608,13 @@ def start_state(rep, c):
     return St(k, c if k == "A" else 1, None)
 
 
+def with_tl(case, tl):
+    if tl is not None and (case["start"]["k"] in ("M", "L") or case["start"].get("tidx") is not None):
+        case["tl"] = list(tl)
+        case["panel"]["tl"] = list(tl)
+    return case
+
+
 def mk_path_case(rng, rep, panel, ops, c, custom_names=None):
     st = start_state(rep, c)
     hops = []
@@ -1453,13 +1647,15 @@ def gen_small(tier, rng, cases):
                     ids = mk_ids(rng, n, rng.choice(ID_MODES)) if sk in ("N", "M", "L") else None
                     p2d = rng.random() < 0.5
                     vals, dt = apply_dtypes(rng, sk, vals, rng.choice(DT_MODES), p2d)
+                    tl = mk_tl(rng, t, rng.choice(TL_MODES)) if sk in ("N", "M", "L") else None
                     rep = start_rep(rng, sk, vals, names, cellkind=rng.choice(["S", "R"]), levels=rng.choice(LEVELS),
-                                    longcols=rng.choice(LONGCOLS), shuffle=rng.random() < 0.3, pandas2d=p2d, ids=ids, dt=dt)
+                                    longcols=rng.choice(LONGCOLS), shuffle=rng.random() < 0.3, pandas2d=p2d, ids=ids, dt=dt,
+                                    tl=tl, mrow=rng.choice(MROW_MODES), swap=rng.random() < 0.25)
                     panel = {"vals": vals, "names": names if names is not None else default_names(c)}
                     if ids is not None:
                         panel["ids"] = ids
                     cn = (lambda k, nk=nk: mk_names(rng, k, nk if nk != "default" else "str"))
-                    cases.append(mk_path_case(rng, rep, panel, ops, c, cn))
+                    cases.append(with_tl(mk_path_case(rng, rep, panel, ops, c, cn), tl))
 
 
 def gen_random(tier, rng, cases):
@@ -1477,14 +1673,16 @@ def gen_random(tier, rng, cases):
         ids = mk_ids(rng, n, rng.choice(ID_MODES)) if sk in ("N", "M", "L") else None
         p2d = rng.random() < 0.5
         vals, dt = apply_dtypes(rng, sk, vals, rng.choice(DT_MODES), p2d)
+        tl = mk_tl(rng, t, rng.choice(TL_MODES)) if sk in ("N", "M", "L") else None
         rep = start_rep(rng, sk, vals, names, cellkind=rng.choice(["S", "R"]), levels=rng.choice(LEVELS),
-                        longcols=rng.choice(LONGCOLS), shuffle=rng.random() < 0.5, pandas2d=p2d, ids=ids, dt=dt)
+                        longcols=rng.choice(LONGCOLS), shuffle=rng.random() < 0.5, pandas2d=p2d, ids=ids, dt=dt,
+                        tl=tl, mrow=rng.choice(MROW_MODES), swap=rng.random() < 0.25)
         ops = rng.choice(op_paths(sk, 4))
         panel = {"vals": vals, "names": names if names is not None else default_names(c)}
         if ids is not None:
             panel["ids"] = ids
         cn = (lambda k, nk=nk: mk_names(rng, k, nk if nk != "default" else "str"))
-        case = mk_path_case(rng, rep, panel, ops, c, cn)
+        case = with_tl(mk_path_case(rng, rep, panel, ops, c, cn), tl)
         if sk == "A" and rng.random() < 0.5:
             case["via"] = {"big": rep, "layout": rng.choice(["F", "T", "strided"])}
         cases.append(case)
@@ -1712,6 +1910,39 @@ def gen_select(tier, rng, cases):
             cases.append(sel_case(rng, "M", {"vals": vals, "names": ["b", "a"]}, big_rep, {"inst": [1, 3], "how": how}, ops, {"levels": ("inst", "t")}))
 
 
+def gen_rowtime(tier, rng, cases):
+    """row order and time labels: every converter and every path of length <= 2 (thorough: <= 3) from (a) multi-index frames whose
+    rows are NOT grouped by instance (time-major, interleaved; levels in either order) and (b) nested frames (Series cells) /
+    multi-index frames / long tables whose time labels are not 0..t-1 ascending (countdown, shuffled, gapped / negative)"""
+    shapes = [(2, 2, 3), (3, 1, 2), (3, 2, 4), (2, 3, 2)] if tier == "quick" else [(n, c, t) for n in (2, 3, 4) for c in (1, 2) for t in (2, 3, 4)]
+    maxlen = 2 if tier == "quick" else 3
+    for (n, c, t) in shapes:
+        for mrow in ("tmajor", "weave"):
+            for swap in (False, True):
+                for ops in op_paths("M", maxlen):
+                    vals = mk_vals(rng, n, c, t)
+                    names = mk_names(rng, c, rng.choice(["str", "str-unsorted", "int"]))
+                    ids = mk_ids(rng, n, rng.choice(ID_MODES))
+                    rep = start_rep(rng, "M", vals, names, levels=rng.choice(LEVELS), ids=ids, mrow=mrow, swap=swap)
+                    panel = {"vals": vals, "names": names}
+                    if ids is not None:
+                        panel["ids"] = ids
+                    cases.append(mk_path_case(rng, rep, panel, ops, c, None))
+        for kind in "NML":
+            for mode in ("desc", "perm", "gap"):
+                for ops in op_paths(kind, maxlen):
+                    vals = mk_vals(rng, n, c, t)
+                    names = mk_names(rng, c, rng.choice(["str", "str-unsorted", "int"]))
+                    ids = mk_ids(rng, n, rng.choice(ID_MODES))
+                    tl = mk_tl(rng, t, mode)
+                    rep = start_rep(rng, kind, vals, names, cellkind="S", levels=rng.choice(LEVELS), longcols=rng.choice(LONGCOLS),
+                                    shuffle=rng.random() < 0.5, ids=ids, tl=tl, mrow=rng.choice([None, None, "tmajor"]))
+                    panel = {"vals": vals, "names": names}
+                    if ids is not None:
+                        panel["ids"] = ids
+                    cases.append(with_tl(mk_path_case(rng, rep, panel, ops, c, None), tl))
+
+
 def gen_hist(tier, rng, cases):
     """call histories: the same converters called several times in one process state with DIFFERENT optional arguments
     (id-column / level / column names given, then omitted, then other ones); every call must give what it gives on its own"""
@@ -1745,6 +1976,7 @@ def gen_cases(tier, rng):
     gen_snames(tier, rng, cases)
     gen_select(tier, rng, cases)
     gen_hist(tier, rng, cases)
+    gen_rowtime(tier, rng, cases)
     return cases
 
 
@@ -1774,10 +2006,13 @@ def shrink(c):
         import random
         r = random.Random(0)
         k = start["k"]
+        tl0 = c.get("tl")
+        tlr = list(tl0[:len(v[0][0])]) if tl0 else None
         rep = start_rep(r, k, v, nm, cellkind=(start["cols"][0][0][0] if k == "N" else "S"),
                         levels=(start["inst"], start["time"]) if k == "M" else None,
                         longcols=(start["inst"], start["time"], start["dim"]) if k == "L" else None,
-                        pandas2d=(k == "T" and start["labels"] is not None), ids=ids if k in ("N", "M", "L") else None)
+                        pandas2d=(k == "T" and start["labels"] is not None), ids=ids if k in ("N", "M", "L") else None,
+                        tl=tlr, mrow=("tmajor" if (k == "M" and not _grouped(start["rows"])) else None), swap=bool(start.get("swap")))
         if k == "N" and start.get("snames"):
             rep["snames"] = start["snames"]
         dt0 = start.get("dt")
@@ -1792,7 +2027,9 @@ def shrink(c):
         pn = {"vals": v, "names": nm}
         if ids is not None and k in ("N", "M", "L"):
             pn["ids"] = ids
-        return dict(c, start=rep, panel=pn)
+        out = dict(c, start=rep, panel=pn)
+        out.pop("tl", None)
+        return with_tl(out, tlr)
     if n > 1:
         for i in (range(n) if start.get("dt") is None else [n - 1]):
             yield rebuild(vals[:i] + vals[i + 1:], names, None if ids0 is None else ids0[:i] + ids0[i + 1:])
